@@ -54,10 +54,21 @@ try:
                 f.write(rebased)
         else:
             out = out + out2
+            # last resort: GNU patch with fuzz (context lines moved or were re-commented by later repairs)
+            sh('git checkout -q -- .', cwd=wt)
+            rc, out3 = sh(f'patch -p1 -F3 --no-backup-if-mismatch -s < {os.path.abspath(src)}/patch.diff', cwd=wt)
+            if rc == 0:
+                rec['rebased'] = 'fuzz'
+                _, rebased = sh('git diff HEAD', cwd=wt)
+                with open(os.path.join(src, 'patch.diff'), 'w') as f:
+                    f.write(rebased)
+            else:
+                sh('git checkout -q -- .; git clean -fdq', cwd=wt)
+                out = out + out3
     rec['patch_applies'] = (rc == 0)
     if rc != 0:
         rec['apply_error'] = out[-500:]
-        raise SystemExit
+        raise RuntimeError('patch does not apply')
     rc1, out1 = sh(f'{PY} {tmp}/demo.py', cwd=wt, env=env, timeout=600)
     rec['demo_with_patch_rc'] = rc1
     rec['demo_with_patch_tail'] = out1[-600:]
@@ -79,6 +90,8 @@ try:
         import re as _re
         rec['checks'][pid] = {'rc': rc, 'fingerprints': sorted(set(_re.findall(r'fingerprint=(\S+)', out)))[:12],
                               'tail': '\n'.join(out.strip().splitlines()[-6:])[-900:]}
+except RuntimeError as e:
+    rec['error'] = str(e)
 finally:
     sh(f'git -C /repo worktree remove --force {wt}')
     shutil.rmtree(tmp, ignore_errors=True)
